@@ -156,6 +156,7 @@ def read_from_haplotype(refseq, variants, hap_alleles, a, b, edge_ins=False, ins
             cig.append((op, n))
 
     pos = a
+    del_end = -1  # end of the last deletion applied to this read
     for v, al in zip(variants, hap_alleles):
         if v.end <= a and not (v.kind == "ins" and v.pos == a - 1):
             continue
@@ -163,6 +164,8 @@ def read_from_haplotype(refseq, variants, hap_alleles, a, b, edge_ins=False, ins
             break
         if al == 0:
             continue
+        if v.pos < del_end:
+            continue  # the site lies inside a deletion this haplotype carries: nothing of this variant is left
         if v.kind in ("snv", "mnp"):
             s, e = max(v.pos, a), min(v.end, b)
             if s >= e:
@@ -212,6 +215,7 @@ def read_from_haplotype(refseq, variants, hap_alleles, a, b, edge_ins=False, ins
             add(0, v.pos + 1 - pos)
             add(2, v.end - v.pos - 1)
             pos = v.end
+            del_end = v.end
     if pos < b:
         seq.append(refseq[pos:b])
         add(0, b - pos)
@@ -284,7 +288,7 @@ def simulate(rng, tmp, p):
     samples = list(p.get("samples", ["sampleA"]))
     ped = list(p.get("pedigree", []))
     sim.samples, sim.pedigree = samples, ped
-    sim.chroms = ["chr%d" % (i + 1) for i in range(n_chrom)]
+    sim.chroms = list(p["chrom_names"])[:n_chrom] if p.get("chrom_names") else ["chr%d" % (i + 1) for i in range(n_chrom)]
     sim.ref, sim.variants, sim.haps, sim.tx = {}, {}, {}, {}
     kinds = p.get("kinds", ["snv"])
     het_prob = p.get("het_prob", 0.7)
@@ -320,6 +324,17 @@ def simulate(rng, tmp, p):
                 w.shift = shift_range(refseq, w.pos, w.ref, w.alt)
                 w.hid = True
                 extra.append(w)
+            for v in vs:
+                # an unrelated deletion that removes the site of an SNV: haplotypes carrying it have no base there
+                if v.kind == "snv" and p.get("covering_deletions") and rng.random() < p["covering_deletions"]:
+                    dd = rng.randint(1, 3)
+                    k = dd + rng.randint(0, 4)
+                    q = v.pos - dd
+                    if q >= 5 and q + k + 1 < L - 5 and not any(abs(w.pos - v.pos) < 20 for w in extra):
+                        w = Variant(q, refseq[q : q + k + 1], refseq[q], "del")
+                        w.shift = 0
+                        w.hid = True
+                        extra.append(w)
             vs = sorted(vs + extra, key=lambda v: v.pos)
         sim.ref[c] = refseq
         sim.variants[c] = vs
@@ -523,6 +538,9 @@ def simulate(rng, tmp, p):
                 a.query_sequence = r["seq"]
                 if qual_mode == "const":
                     a.query_qualities = pysam.qualitystring_to_array("I" * len(r["seq"]))
+                elif qual_mode == "zeros":
+                    # base qualities including 0: an allele observed with quality 0 has weight 0 but still covers the variant
+                    a.query_qualities = pysam.qualitystring_to_array("".join(chr(33 + (0 if rng.random() < 0.3 else rng.randint(12, 40))) for _ in r["seq"]))
                 else:
                     a.query_qualities = pysam.qualitystring_to_array("".join(chr(33 + rng.randint(12, 40)) for _ in r["seq"]))
                 flag = 0
